@@ -93,14 +93,58 @@ Proof.
   simpl in Ha. destruct Ha as [Ha|[]]. left; exact Ha.
 Qed.
 
-Definition nn : string := "num_nulls"%string.
-Definition dropna_test (how : bool) (thresh : option Z) (chk : list string) : expr :=
+Definition dropna_test (nn : string) (how : bool) (thresh : option Z) (chk : list string) : expr :=
   EBin Lt (ECol nn) (ELit (VInt (min_num_nulls how thresh (Z.of_nat (List.length chk))))).
 
-Lemma dropna_frames F how thresh chk :
+(** ** the helper name is never a current column *)
+Fixpoint underscores (k : nat) : string := match k with O => ""%string | S k' => ("_" ++ underscores k')%string end.
+Lemma sappend_assoc (a b c : string) : ((a ++ b) ++ c = a ++ (b ++ c))%string.
+Proof. induction a as [|x a IH]; simpl; [reflexivity | rewrite IH; reflexivity]. Qed.
+Lemma sappend_nil_r (a : string) : (a ++ "")%string = a.
+Proof. induction a as [|x a IH]; simpl; [reflexivity | rewrite IH; reflexivity]. Qed.
+Lemma slength_append (a b : string) : String.length (a ++ b) = (String.length a + String.length b)%nat.
+Proof. induction a as [|x a IH]; simpl; [reflexivity | rewrite IH; reflexivity]. Qed.
+Lemma slength_underscores k : String.length (underscores k) = k.
+Proof. induction k as [|k IH]; simpl; [reflexivity | rewrite IH; reflexivity]. Qed.
+
+Lemma fresh_aux_in fuel used : forall name,
+  In (fresh_aux fuel name used) used -> forall k, (k <= fuel)%nat -> In (name ++ underscores k)%string used.
+Proof.
+  induction fuel as [|f IH]; intros name H k Hk; cbn [fresh_aux] in H.
+  - assert (k = O) by lia. subst. simpl. rewrite sappend_nil_r.
+    destruct (mem name used) eqn:E; [apply mem_In; exact E | exact H].
+  - destruct (mem name used) eqn:E.
+    + destruct k as [|k]; [simpl; rewrite sappend_nil_r; apply mem_In; exact E|].
+      specialize (IH _ H k ltac:(lia)). rewrite sappend_assoc in IH. exact IH.
+    + apply mem_In in H. congruence.
+Qed.
+
+Lemma candidates_nodup name n : NoDup (map (fun k => (name ++ underscores k)%string) (seq 0 n)).
+Proof.
+  assert (H : forall start, NoDup (map (fun k => (name ++ underscores k)%string) (seq start n)) /\
+                            forall x, In x (map (fun k => (name ++ underscores k)%string) (seq start n)) ->
+                                      (String.length name + start <= String.length x)%nat).
+  { induction n as [|n IH]; intro start; simpl; [split; [constructor | tauto]|].
+    destruct (IH (S start)) as [Hnd Hlen]. split.
+    - constructor; [|exact Hnd]. intro Hin. apply Hlen in Hin. rewrite slength_append, slength_underscores in Hin. lia.
+    - intros x [<-|Hx]; [rewrite slength_append, slength_underscores; lia|]. apply Hlen in Hx. lia. }
+  apply H.
+Qed.
+
+Theorem fresh_not_in base used : ~ In (fresh_name base used) used.
+Proof.
+  intro H. unfold fresh_name in H.
+  pose proof (fresh_aux_in (List.length used) used base H) as Hall.
+  assert (Hincl : incl (map (fun k => (base ++ underscores k)%string) (seq 0 (S (List.length used)))) used).
+  { intros x Hx. apply in_map_iff in Hx. destruct Hx as [k [<- Hk]]. apply in_seq in Hk. apply Hall. lia. }
+  pose proof (NoDup_incl_length (candidates_nodup base (S (List.length used))) Hincl) as Hlen.
+  rewrite map_length, seq_length in Hlen. lia.
+Qed.
+
+Lemma dropna_frames nn F how thresh chk :
   wf_frame F -> NoDup (cols F) -> ~ In nn (cols F) ->
   spec_step (OSelect (passthrough (cols F)))
-    (spec_step (OWhere (dropna_test how thresh chk))
+    (spec_step (OWhere (dropna_test nn how thresh chk))
        (spec_step (OSelect (passthrough (cols F) ++ [(num_nulls_expr chk, nn)])) F))
   = mkFrame (cols F) (filter (dropna_keep (cols F) how thresh chk) (rows F)).
 Proof.
@@ -477,13 +521,12 @@ Section ExtProof.
   (** ** dropna: three sequential steps of the core compiler, then the method's own tag *)
   Theorem dropna_correct k d ics input how thresh subset :
     deco "dropna"%string = Some k -> kind_reach_ok k = true ->
-    ~ In nn (cur_cols d) -> incl subset (cur_cols d) ->
-    dropna_guard how thresh (match subset with [] => cur_cols d | _ => subset end) = true ->
+    incl subset (cur_cols d) ->
     cols input = ics -> wf_frame input -> GInvR c d ics ->
     exists d', step_x c deco d (XDropna how thresh subset) = Some d' /\
                eval_df d' input = spec_x (XDropna how thresh subset) (eval_df d input) /\ GInvR c d' ics.
   Proof.
-    intros Hd Hk Hnn Hsub Hguard Hics Hwf HI.
+    intros Hd Hk Hsub Hics Hwf HI.
     unfold step_x. rewrite Hd.
     destruct (outer_pre_ok k d ics input HI) as (He1 & HI1 & Hc1 & Hl1 & Hreach).
     destruct (outer_pre c k d) as [d1 new] eqn:Eo. cbn [fst snd] in *.
@@ -494,13 +537,11 @@ Section ExtProof.
     set (chk := match subset with [] => all | _ => subset end).
     assert (Hchk : incl chk all).
     { subst chk. destruct subset; [apply incl_refl|]. rewrite Hc1. exact Hsub. }
-    assert (Hg : dropna_guard how thresh chk = true).
-    { subst chk. rewrite Hc1. exact Hguard. }
-    rewrite Hg. clear Hg.
     assert (Hnda : NoDup all) by (destruct HI1 as [(_&_&_&_&Hn) _]; exact Hn).
-    assert (Hnna : ~ In nn all) by (rewrite Hc1; exact Hnn).
+    set (nn := fresh_name "num_nulls" all).
+    assert (Hnna : ~ In nn all) by apply fresh_not_in.
     (* step 1 is a select step of the core compiler *)
-    set (item := (num_nulls_expr chk, "num_nulls"%string)).
+    set (item := (num_nulls_expr chk, nn)).
     set (items1 := passthrough all ++ [item]).
     assert (E3 : {| done := done (pre_wrap c (OSelect []) (pre_init c d1));
                     cur := set_sel (cur (pre_wrap c (OSelect []) (pre_init c d1)))
@@ -532,14 +573,14 @@ Section ExtProof.
     set (d3 := step c d1 (OSelect items1)) in *.
     assert (Hc3 : cur_cols d3 = all ++ [nn]) by (unfold cur_cols; rewrite Ps3; exact Hoc1).
     (* step 2: where num_nulls < k *)
-    fold nn. fold (dropna_test how thresh chk).
-    assert (Hhf2 : hf_ok c d3 ics (OWhere (dropna_test how thresh chk)) = true).
+    fold (dropna_test nn how thresh chk).
+    assert (Hhf2 : hf_ok c d3 ics (OWhere (dropna_test nn how thresh chk)) = true).
     { apply hf_ok_where_vis. intros n Hn. simpl in Hn. destruct Hn as [<-|[]].
       rewrite Hc3. apply in_or_app. right. left. reflexivity. }
-    assert (Hok2 : op_ok c d3 ics (OWhere (dropna_test how thresh chk)) = true) by reflexivity.
+    assert (Hok2 : op_ok c d3 ics (OWhere (dropna_test nn how thresh chk)) = true) by reflexivity.
     destruct (gstep_correct c Hcfg Hlim d3 ics input _ Hics Hwf HI3 Hok2 Hhf2) as [Ev4 HI4].
-    destruct (gstep_where_post d3 ics (dropna_test how thresh chk) HI3) as ((_ & Hi4 & _) & Hc4).
-    set (d4 := step c d3 (OWhere (dropna_test how thresh chk))) in *.
+    destruct (gstep_where_post d3 ics (dropna_test nn how thresh chk) HI3) as ((_ & Hi4 & _) & Hc4).
+    set (d4 := step c d3 (OWhere (dropna_test nn how thresh chk))) in *.
     (* step 3: select the original columns *)
     assert (Hok3 : op_ok c d4 ics (OSelect (passthrough all)) = true).
     { unfold op_ok. rewrite out_cols_passthrough. apply nodupb_complete. exact Hnda. }
@@ -558,7 +599,7 @@ Section ExtProof.
     - change (eval_df (set_last d5 new) input) with (eval_df d5 input).
       rewrite Ev5, Ev4, Ev3.
       unfold spec_x. rewrite <- He1.
-      exact (dropna_frames (eval_df d1 input) how thresh chk (wf_eval_block _ _) Hnda Hnna).
+      exact (dropna_frames nn (eval_df d1 input) how thresh chk (wf_eval_block _ _) Hnda Hnna).
     - split; [|exact Hnew].
       destruct HI5 as [(_ & _ & _ & Hn1 & Hn2) _].
       unfold GInv. change (cur (set_last d5 new)) with (cur d5).
@@ -581,9 +622,7 @@ Section ExtProof.
     | XCore u => op_ok c d ics (desugar (cur_cols d) u) && hf_ok c d ics (desugar (cur_cols d) u)
     | XFillna _ | XReplace _ _ => true
     | XToDF ns => Nat.eqb (List.length ns) (List.length (cur_cols d)) && nodupb ns
-    | XDropna how thresh subset =>
-        negb (mem nn (cur_cols d)) && forallb (fun s => mem s (cur_cols d)) subset
-        && dropna_guard how thresh (match subset with [] => cur_cols d | _ => subset end)
+    | XDropna how thresh subset => forallb (fun s => mem s (cur_cols d)) subset
     | _ => false
     end.
   Fixpoint xs_ok (d : df) (ics : list string) (xs : list xop) : bool :=
@@ -616,11 +655,8 @@ Section ExtProof.
       apply (toDF_correct kt); auto.
     - apply (fillna_correct kf); auto.
     - apply (replace_correct kr); auto.
-    - apply andb_true_iff in Hx. destruct Hx as [Hx Hg].
-      apply andb_true_iff in Hx. destruct Hx as [Hnn Hsub].
-      apply (dropna_correct kd); auto.
-      + intro Hin. apply mem_In in Hin. rewrite Hin in Hnn. discriminate.
-      + intros s Hs. rewrite forallb_forall in Hsub. apply mem_In. apply Hsub. exact Hs.
+    - apply (dropna_correct kd); auto.
+      intros s Hs. rewrite forallb_forall in Hx. apply mem_In. apply Hx. exact Hs.
   Qed.
 
   Theorem xchain_correct xs : forall d ics input,
